@@ -216,14 +216,36 @@ class Case:
                 nf.append((sid, " ".join(fw)))
             ln.frames = nf
 
+    def deletions(self):
+        """index of the request -> (account, hard) for every {del what=user} which was acknowledged (200)"""
+        if getattr(self, "_dels", None) is None:
+            self._dels = {}
+            for i, (o, ln) in enumerate(zip(self.ops, self.lines)):
+                w = o.split(" ")
+                if w[0] != "deluser" or ln.plain is not None or w[1] not in self.sess:
+                    continue
+                if not any(sid == w[1] and f == "ctrl 200 -" for sid, f in ln.frames):
+                    continue
+                kv = _kv(w[2:])
+                self._dels[i] = (kv.get("user") or self.sess[w[1]]["user"], kv.get("hard") == "1")
+        return self._dels
+
+    def deleted_before(self, i):
+        """the accounts deleted by requests before request i (account -> index of the request)"""
+        return {u: k for k, (u, _) in sorted(self.deletions().items()) if k < i}
+
     def logged_out(self, i):
         """the sessions which the server has logged out before request i: a {sub} to `me` whose first store call - reading the
         account - failed or found nothing logs the session out (initTopicMe); a restart stands for new connections"""
         if self._out is None:
             cur, self._out = set(), []
-            for o, ln in zip(self.ops, self.lines):
-                self._out.append(frozenset(cur))
+            gone = set()        # sessions of deleted accounts: a new connection cannot log in either
+            dels = self.deletions()
+            for k, (o, ln) in enumerate(zip(self.ops, self.lines)):
+                self._out.append(frozenset(cur | gone))
                 w = o.split(" ")
+                if k in dels:
+                    gone |= {sid for sid, x in self.sess.items() if x["user"] == dels[k][0]}
                 if w[0] == "restart":
                     cur = set()
                 elif w[0] == "mesub" and ln.plain is None and ln.calls == ["UserGet"] and \
@@ -1228,6 +1250,12 @@ def mon_C10_me(case):
                     was = {u for u, r in old["subs"].items() if not r["deleted"]} if old else set()
                     if live - was:
                         phantom.add(t)
+        # an account which was deleted is not reported online to anybody any more, nor is a topic which went with its owner
+        for victim, k in case.deleted_before(i + 1).items():
+            for u, c in ln.me.items():
+                on = c["contacts"].get(victim)
+                if on is not None and on[0]:
+                    out.append((i, f"C10 [deleted-online] the account {victim} was deleted (request {k}) but {u} is still told on `me` that it is online"))
         # (a)
         for sid, f in ln.meframes:
             fw = f.split(" ")
@@ -1367,7 +1395,7 @@ def mon_C10_me(case):
 
 # ------------------------------------------------------------------------------------------------ C13 / C14 (sequential part)
 
-REQS = ("newgrp", "sub", "leave", "pub", "get", "setsub", "setdesc", "settags", "delmsg", "delsub", "deltopic")
+REQS = ("newgrp", "sub", "leave", "pub", "get", "setsub", "setdesc", "settags", "delmsg", "delsub", "deltopic", "deluser")
 
 
 def replied(ln, sid):
@@ -1472,6 +1500,37 @@ def mon_C14(case):
         if w[0] in ("sub", "leave", "deltopic", "delsub", "newgrp") and not replied(ln, w[1]):
             k = silent_why(case, i, w, ln)
             out.append((i, f"C14 {k}" if k else f"C14 request `{w[0]}` from {w[1]} was not answered"))
+        if w[0] == "deluser" and w[1] in case.sess:
+            nrep = len([f for sid, f in ln.frames if sid == w[1] and f.startswith("ctrl ") and not f.startswith("ctrl 205 ")])
+            if nrep != 1 and w[1] not in case.logged_out(i):
+                out.append((i, f"C14 request `deluser` from {w[1]} was " + ("not answered" if nrep == 0 else "answered twice")))
+        if i in case.deletions():
+            # an account was deleted: its sessions are detached from everything, nothing counts it online or keeps a session for it,
+            # what it owned and its p2p topics are shut down and deleted
+            victim, hard = case.deletions()[i]
+            pre = prev_state(case, i)
+            for sid, x in case.sess.items():
+                if x["user"] == victim:
+                    left = sorted(ln.sess.get(sid, set()) | ln.mesess.get(sid, set()) | ln.fndsess.get(sid, set()))
+                    if left:
+                        out.append((i, f"C14 the account {victim} was deleted but its session {sid} is still attached to {','.join(left)}"))
+            for t, c in list(ln.cache.items()) + list(ln.me.items()) + list(ln.fnd.items()):
+                pu = c["users"].get(victim)
+                if pu is not None and pu["o"] != 0:
+                    out.append((i, f"C14 the account {victim} was deleted but {t} still counts it online ({pu['o']})"))
+                for sid, u in c["sess"].items():
+                    if u == victim:
+                        out.append((i, f"C14 the account {victim} was deleted but {t} still has session {sid} attached for it"))
+                if c["owner"] == victim or t == victim or t == "fnd:" + victim or (t.startswith("P:") and victim in t[2:].split(":")):
+                    out.append((i, f"C14 the account {victim} was deleted but its topic {t} is still loaded"))
+            if pre is not None:
+                for t, r in pre.store.items():
+                    if r["owner"] == victim:
+                        now = ln.store.get(t)
+                        if hard and now is not None:
+                            out.append((i, f"C14 the account {victim} was deleted (hard) but its topic {t} is still stored"))
+                        if not hard and (now is None or now["state"] != 20):
+                            out.append((i, f"C14 the account {victim} was deleted but its topic {t} is not marked deleted"))
         # a deleted topic: everybody detached, later requests refused
         if w[0] == "deltopic" and len(w) > 2:
             pre = prev_state(case, i)
@@ -1503,6 +1562,18 @@ def mon_C11(case):
     out = []
     for i, (o, ln) in enumerate(zip(case.ops, case.lines)):
         w = o.split(" ")
+        if ln.plain is None and w[0] == "deluser" and w[1] in case.sess and w[1] not in case.logged_out(i):
+            # an account is deleted by its own session or by a root session, by nobody else
+            kv = _kv(w[2:])
+            s_ = case.sess[w[1]]
+            if kv.get("user") and kv["user"] != s_["user"] and s_["lvl"] != "root":
+                pre = prev_state(case, i)
+                mine = [f for sid, f in ln.frames + ln.meframes if sid == w[1]]
+                if mine != ["ctrl 403 -"]:
+                    out.append((i, f"C11 `deluser user={kv['user']}` from {w[1]} ({s_['user']}, {s_['lvl']}) answered {mine[:2]} instead of ['ctrl 403 -']"))
+                others = [(sid, f) for sid, f in ln.frames + ln.meframes if sid != w[1]]
+                if others or ln.pushes or ln.calls or (pre is not None and state_of(ln) != state_of(pre)):
+                    out.append((i, f"C11 `deluser user={kv['user']}` from {w[1]} ({s_['user']}, {s_['lvl']}) had an effect: {others[:1]} calls={','.join(ln.calls)}"))
         if ln.plain is not None or len(w) < 2 or w[1] not in case.logged_out(i):
             continue
         if w[0] not in REQS + ME_REQS + FND_REQS + ("note", "menote", "fndnote"):
